@@ -175,6 +175,31 @@ func bVectors() []string {
 			}
 		}
 	}
+	// uvarint boundaries: 127/128/129 entries in one node, marshaled values of 127..129 bytes
+	for _, nf := range bFormats {
+		for _, n := range []int{127, 128, 129, 300} {
+			st := newBStore("mem://vec3")
+			m, err := NewRoot(&CreateRemoteOptions{BranchFactor: 1024, NodeFormat: nf}).LoadMast(bctx, &RemoteConfig{KeysLike: 0, ValuesLike: "", StoreImmutablePartsWith: st})
+			if err != nil {
+				continue
+			}
+			for i := 1; i <= n; i++ {
+				m.Insert(bctx, i, strings.Repeat("x", 120+i%12))
+			}
+			root, err := m.MakeRoot(bctx)
+			if err != nil {
+				add("wide nf=%s n=%d makeroot err", nf, n)
+				continue
+			}
+			add("wide nf=%s n=%d %s", nf, n, bRootString(root))
+			m2, err := root.LoadMast(bctx, &RemoteConfig{KeysLike: 0, ValuesLike: "", StoreImmutablePartsWith: st})
+			cnt := 0
+			if err == nil {
+				err = m2.Iter(bctx, func(k, v interface{}) error { cnt++; return nil })
+			}
+			add("wide nf=%s n=%d reload entries=%d err=%v", nf, n, cnt, err != nil)
+		}
+	}
 	// defaults
 	r := NewRoot(nil)
 	add("default root bf=%d nf=%s size=%d height=%d link=%v", r.BranchFactor, r.NodeFormat, r.Size, r.Height, r.Link == nil)
@@ -325,15 +350,15 @@ func TestBounded_C19(t *testing.T) {
 			ifs := func(v ...interface{}) []interface{} { return v }
 			high := int(bf * bf * bf)
 			for _, c := range []crafted{
-				{"count-mismatch", mastNode{Node: Node{Key: ifs(high, 2 * high), Value: ifs(1), Link: ifs(nil, nil, nil)}}, 0},
+				{"count-mismatch", mastNode{Node: Node{Key: ifs(high, 2*high), Value: ifs(1), Link: ifs(nil, nil, nil)}}, 0},
 				{"count-mismatch", mastNode{Node: Node{Key: ifs(high), Value: ifs(1, 2), Link: ifs(nil, nil)}}, 0},
-				{"link-count-mismatch", mastNode{Node: Node{Key: ifs(high, 2 * high), Value: ifs(1, 2), Link: ifs(nil, "x")}}, 0},
+				{"link-count-mismatch", mastNode{Node: Node{Key: ifs(high, 2*high), Value: ifs(1, 2), Link: ifs(nil, "x")}}, 0},
 				{"link-count-mismatch", mastNode{Node: Node{Key: ifs(high), Value: ifs(1), Link: ifs(nil, "x", nil, nil)}}, 0},
 				{"unsorted-keys", mastNode{Node: Node{Key: ifs(2*high, high), Value: ifs(1, 2), Link: ifs(nil, nil, nil)}}, 0},
 				{"unsorted-keys", mastNode{Node: Node{Key: ifs(high, high), Value: ifs(1, 2), Link: ifs(nil, nil, nil)}}, 0},
 				{"unsorted-keys", mastNode{Node: Node{Key: ifs(high, 2*high, 3*high, 2*high), Value: ifs(1, 2, 3, 4), Link: ifs(nil, nil, nil, nil, nil)}}, 0},
 				{"layer-below-height", mastNode{Node: Node{Key: ifs(1, high), Value: ifs(1, 2), Link: ifs(nil, nil, nil)}}, 2},
-				{"layer-below-height", mastNode{Node: Node{Key: ifs(high, high + 1), Value: ifs(1, 2), Link: ifs(nil, nil, nil)}}, 1},
+				{"layer-below-height", mastNode{Node: Node{Key: ifs(high, high+1), Value: ifs(1, 2), Link: ifs(nil, nil, nil)}}, 1},
 			} {
 				n := c.node
 				name := craft(&n)
